@@ -3,9 +3,9 @@
 package props
 
 import (
-	"strconv"
 	"fmt"
 	"math/rand/v2"
+	"strconv"
 	"sync"
 
 	"github.com/creachadair/mds/mlink"
@@ -28,11 +28,11 @@ func init() {
 				Flavours: []string{"plain", "race", "cover", "386"},
 				Blocks:   16,
 				Procs:    16,
-				Rule: "four generators. stack: histories of Push/Add/Pop/Clear with Len, IsEmpty, Top, Slice, Each (early stop), Peek(0..Len+1) after every op. mlink.Queue (zero value and NewQueue): Add/Pop/Clear incl. pop-to-empty-then-Add, with Len (constant-time counter) vs walked length, Front, Peek, Each. " +
+				Rule: "four generators. Find's predicate notes its arguments: only elements of the list may be passed to it (none at all on an empty list). stack: histories of Push/Add/Pop/Clear with Len, IsEmpty, Top, Slice, Each (early stop), Peek(0..Len+1) after every op. mlink.Queue (zero value and NewQueue): Add/Pop/Clear incl. pop-to-empty-then-Add, with Len (constant-time counter) vs walked length, Front, Peek, Each. " +
 					"Large containers: stack and list queue grown to 3000..12000 and to 262143..1.2 M elements (5 M thorough), shrunk, regrown and drained with constant-time checks on every step and full comparisons at the turning points. mlink.List: 20-60 edits through a population of 4-10 cursors obtained by At/Last/End/Find and moved by Next; Push/Add/Set/Remove/Truncate at any position incl. end-of-list, list Clear; after EVERY edit every cursor is re-checked (Get, AtEnd vs the model) and stale cursors are probed with every method: each must panic \"invalid cursor\" and leave Each unchanged (each probe is announced so that a hang is pinned to it). " +
 					"ring: exhaustive Join over every pair of elements of every configuration of <= 7 elements in <= 2 rings (same ring at every distance, different rings, singletons) and random Of/New/Join/Pop histories over a pool of nodes; after every op a bounded structural walk (Next/Prev mutually inverse, cycles close at their length), the cycles compared with the documented result, At/Peek for every offset |n| != len in [-len-1,len+1], Len, Each with early stop. " +
 					"distinct = hash of the history; non-trivial = list history that created at least one stale cursor / ring case whose Join changed the cycles",
-				Required:     []string{"stack_steps", "queue_steps", "queue_add_after_pop_to_empty", "list_edits", "stale_probes", "stale_truncate_probes", "truncate_then_add_at_end", "set_at_end", "ring_join_same_ring", "ring_join_different_rings", "ring_join_noop", "ring_pops", "ring_exhaustive_cases", "large_histories", "sparse_observation_list_histories", "concurrent_instance_histories", "very_large_containers", "huge_lists_discarded_in_one_call"},
+				Required:     []string{"stack_steps", "queue_steps", "queue_add_after_pop_to_empty", "list_edits", "stale_probes", "stale_truncate_probes", "truncate_then_add_at_end", "set_at_end", "ring_join_same_ring", "ring_join_different_rings", "ring_join_noop", "ring_pops", "ring_exhaustive_cases", "large_histories", "sparse_observation_list_histories", "concurrent_instance_histories", "very_large_containers", "huge_lists_discarded_in_one_call", "find_calls_with_predicate_arguments_checked"},
 				Exhaustive:   true,
 				Assumptions:  []string{"ring.At(n)/Peek(n) for |n| == Len is not constrained (doc comment and code disagree; the property is silent)", "Cursor.Add with no values is a no-op and is not used as a stale probe"},
 				CoverPkgs:    []string{"github.com/creachadair/mds/stack", "github.com/creachadair/mds/mlink", "github.com/creachadair/mds/ring"},
@@ -551,7 +551,22 @@ func (l *c10list) obtain() {
 				}
 			}
 		}
-		cu = &c10cur{c: l.lst.Find(func(v int) bool { return v == target }), how: fmt.Sprintf("Find(==%d)", target)}
+		// the predicate notes every argument: it is only defined on elements of the list
+		held := make(map[int]bool, n)
+		for _, id := range l.ids {
+			held[l.vals[id]] = true
+		}
+		var strays []int
+		cu = &c10cur{c: l.lst.Find(func(v int) bool {
+			if !held[v] {
+				strays = append(strays, v)
+			}
+			return v == target
+		}), how: fmt.Sprintf("Find(==%d)", target)}
+		l.c.Add("find_calls_with_predicate_arguments_checked", 1)
+		if len(strays) > 0 {
+			l.fail("Find(==%d) on a list of %d elements called its predicate with %v, which are not elements of the list", target, n, strays)
+		}
 		if idx > 0 {
 			cu.pred = l.ids[idx-1]
 		}
